@@ -14,7 +14,11 @@ Two small engines, both purely syntactic:
   comparisons between the scenario's quantities, an over-approximation of the
   feasible paths otherwise - so "cannot reach" / "cannot bypass" answers are
   sound.  Nothing of werkzeug is imported or run: the evaluator walks ``ast``
-  nodes of /repo's source.
+  nodes of /repo's source.  Lookups are path sensitive: a name bound on
+  several branches (a flag) takes the value of the bindings that are live on
+  the paths the scenario permits (``live_defs``); ``normalised`` rewrites
+  statement-level conditional expressions into if statements first;
+  ``concrete`` follows one run statement by statement over an environment.
 """
 
 from __future__ import annotations
@@ -326,6 +330,9 @@ _BUILTINS: dict[str, t.Callable[..., t.Any]] = {
     "sorted": sorted, "tuple": tuple, "list": list, "len": len, "set": set, "frozenset": frozenset, "min": min, "max": max,
     "bool": bool, "any": any, "all": all, "str": str, "int": int, "float": float, "reversed": lambda x: list(reversed(x)), "abs": abs,
     "next": lambda it, *default: _next(it, *default), "iter": lambda x: list(x),
+    "range": lambda *a: list(range(*a)) if all(isinstance(x, int) and abs(x) <= 1000 for x in a) else UNK,
+    "enumerate": lambda it, start=0: [(i, x) for i, x in enumerate(list(it), start)], "zip": lambda *its: [tuple(x) for x in zip(*[list(i) for i in its])],
+    "dict": lambda *a: dict(*a), "sum": sum, "round": round,
 }
 
 
@@ -333,6 +340,8 @@ _PLAIN = (int, float, str, tuple, list)
 _BINOPS: dict[type, t.Callable[[t.Any, t.Any], t.Any]] = {
     ast.Add: lambda a, b: a + b, ast.Sub: lambda a, b: a - b, ast.Mult: lambda a, b: a * b if not (isinstance(a, (str, tuple, list)) or isinstance(b, (str, tuple, list))) or (isinstance(a, int) and a < 64) or (isinstance(b, int) and b < 64) else UNK,
     ast.FloorDiv: lambda a, b: a // b, ast.Mod: lambda a, b: a % b if not isinstance(a, str) else UNK,
+    ast.BitOr: lambda a, b: a | b if isinstance(a, int) and isinstance(b, int) else UNK, ast.BitAnd: lambda a, b: a & b if isinstance(a, int) and isinstance(b, int) else UNK,
+    ast.BitXor: lambda a, b: a ^ b if isinstance(a, int) and isinstance(b, int) else UNK,
 }
 
 
@@ -350,6 +359,43 @@ def _known(*vs: t.Any) -> bool:
     return all(v is not UNK for v in vs)
 
 
+class _Lam:
+    """value of a lambda expression (its body is evaluated at the call, free names looked up there)."""
+
+    def __init__(self, node: ast.Lambda):
+        self.node = node
+
+    def __repr__(self) -> str:
+        return "<lambda>"
+
+
+class _Fn:
+    """value of a nested ``def``, or (``fi`` given) of a reference to a function of the analysed module / a method of the
+    analysed class that nothing overrides (``bound``: `self.<name>`); applied by FuncEval on known arguments."""
+
+    def __init__(self, node: ast.AST, fi: t.Any = None, bound: bool = False):
+        self.node = node
+        self.fi = fi
+        self.bound = bound
+
+    def __repr__(self) -> str:
+        return f"<def {getattr(self.node, 'name', '?')}>"
+
+
+def _simple_params(a: ast.arguments) -> list[str] | None:
+    if a.vararg or a.kwarg or a.kwonlyargs or a.defaults or a.kw_defaults:
+        return None
+    return [x.arg for x in a.posonlyargs + a.args]
+
+
+class _Stuck(Exception):
+    pass
+
+
+def astq_is_none(e: ast.AST) -> bool:
+    return isinstance(e, ast.Constant) and e.value is None
+
+
 class Ev:
     """expression evaluator; ``lookup(Name)`` supplies values of free names, ``call_hook(call, ev, env)`` may
     interpret a call (return NotImplemented to decline)."""
@@ -358,11 +404,15 @@ class Ev:
         self.lookup = lookup
         self.call_hook = call_hook
         self.node: Node | None = None  # CFG node the expression belongs to (set by FuncEval)
+        self.apply_fn: t.Callable[[t.Any, list, "Ev", dict], t.Any] | None = None  # applies a nested def (set by FuncEval)
+        self.func_ref: t.Callable[[ast.AST, "Ev", dict], t.Any] | None = None  # `helper` / `self.method` as a value (set by FuncEval)
+        self.mutating = False  # statement-by-statement run over one environment of local objects (FuncEval.concrete)
         self.named: t.Callable[[ast.NamedExpr], t.Any] | None = None  # value of a walrus the scenario fixes (set by FuncEval)
 
     # -- values ------------------------------------------------------------
     def val(self, e: ast.AST | None, env: dict[str, t.Any] | None = None) -> t.Any:
-        env = env or {}
+        if env is None:
+            env = {}
         if e is None:
             return None
         if isinstance(e, ast.Constant):
@@ -432,12 +482,15 @@ class Ev:
             if tr is UNK:
                 return UNK
             return self.val(e.body if tr else e.orelse, env)
+        if isinstance(e, ast.Lambda):
+            return _Lam(e)
         if isinstance(e, ast.NamedExpr):
-            if self.named is not None:
-                r = self.named(e)
-                if r is not NotImplemented:
-                    return r
-            return self.val(e.value, env)
+            r = self.named(e) if self.named is not None else NotImplemented
+            if r is NotImplemented:
+                r = self.val(e.value, env)
+            if env or self.mutating:
+                env[e.target.id] = r  # visible to the rest of the comprehension / statement being evaluated
+            return r
         if isinstance(e, ast.Call):
             if self.call_hook is not None:
                 r = self.call_hook(e, self, env)
@@ -500,10 +553,75 @@ class Ev:
                 return False
         return True
 
+    def apply(self, fn: t.Any, args: list[t.Any], env: dict[str, t.Any]) -> t.Any:
+        """call a callable value on known arguments."""
+        if isinstance(fn, _Lam):
+            names = _simple_params(fn.node.args)
+            if names is None or len(names) != len(args):
+                return UNK
+            return self.val(fn.node.body, {**env, **dict(zip(names, args))})
+        if isinstance(fn, _Fn) and self.apply_fn is not None:
+            return self.apply_fn(fn, args, self, env)
+        return UNK
+
+    def _callable(self, e: ast.AST, env: dict[str, t.Any]) -> t.Any:
+        """the callable value an expression denotes, or None."""
+        v = self.val(e, env) if isinstance(e, (ast.Name, ast.Lambda)) else UNK
+        if not isinstance(v, (_Lam, _Fn)) and self.func_ref is not None and not (isinstance(e, ast.Name) and e.id in env):
+            v = self.func_ref(e, self, env)
+        return v if isinstance(v, (_Lam, _Fn)) else None
+
     def _call(self, e: ast.Call, env: dict[str, t.Any]) -> t.Any:
-        if e.keywords or any(isinstance(a, ast.Starred) for a in e.args):
+        if any(isinstance(a, ast.Starred) for a in e.args) or any(k.arg is None for k in e.keywords):
             return UNK
         f = e.func
+        if e.keywords:
+            # keyword arguments of a few well-known calls: sorted / max / min (key, reverse, default), str and pattern methods
+            kw = {k.arg: k.value for k in e.keywords}
+            args = [self.val(a, env) for a in e.args]
+            if not _known(*args):
+                return UNK
+            try:
+                if isinstance(f, ast.Name) and f.id in ("sorted", "max", "min") and f.id not in env and self.lookup(f) is UNK and set(kw) <= {"key", "reverse", "default"}:
+                    extra: dict[str, t.Any] = {}
+                    if "key" in kw:
+                        fn = self._callable(kw["key"], env)
+                        if fn is None:
+                            return UNK
+                        def key(x: t.Any, fn: t.Any = fn) -> t.Any:
+                            r = self.apply(fn, [x], env)
+                            if r is UNK:
+                                raise _Stuck()
+                            return r
+
+                        extra["key"] = key
+                    for nm in ("reverse", "default"):
+                        if nm in kw:
+                            extra[nm] = self.val(kw[nm], env)
+                            if extra[nm] is UNK:
+                                return UNK
+                    if f.id == "sorted":
+                        extra.pop("default", None)
+                    else:
+                        extra.pop("reverse", None)
+                    return {"sorted": sorted, "max": max, "min": min}[f.id](*args, **extra)
+                if isinstance(f, ast.Attribute):
+                    recv = self.val(f.value, env)
+                    kws = {k: self.val(v, env) for k, v in kw.items()}
+                    if recv is UNK or not _known(*kws.values()):
+                        return UNK
+                    if isinstance(recv, RegexConst) and f.attr == "split" and set(kws) <= {"maxsplit"}:
+                        return re.compile(recv.pattern, recv.flags).split(*args, **kws)
+                    if isinstance(recv, str) and f.attr in ("split", "rsplit") and set(kws) <= {"sep", "maxsplit"}:
+                        return getattr(recv, f.attr)(*args, **kws)
+            except (_Stuck, TypeError, ValueError):
+                return UNK
+            return UNK
+        if isinstance(f, ast.Name):
+            fn = self._callable(f, env)
+            if fn is not None:
+                args = [self.val(a, env) for a in e.args]
+                return self.apply(fn, args, env) if _known(*args) else UNK
         if isinstance(f, ast.Attribute):
             recv = self.val(f.value, env)
             if recv is UNK:
@@ -524,12 +642,32 @@ class Ev:
                     return getattr(recv, f.attr)(*args)
                 if isinstance(recv, (list, tuple)) and f.attr in _SEQ_METHODS:
                     return getattr(recv, f.attr)(*args)
+                if self.mutating and isinstance(recv, (list, dict)) and f.attr == "pop" and isinstance(f.value, ast.Name) and env.get(f.value.id) is recv:
+                    return recv.pop(*args)  # statement-by-statement run: the local object itself is updated
                 if isinstance(recv, dict) and f.attr in ("get", "keys", "values", "items"):
                     r = getattr(recv, f.attr)(*args)
                     return r if f.attr == "get" else list(r)
             except (TypeError, ValueError):
                 return UNK
             return UNK
+        if isinstance(f, ast.Name) and f.id in ("map", "filter") and f.id not in env and self.lookup(f) is UNK and len(e.args) == 2:
+            fn = self._callable(e.args[0], env)
+            items = self.val(e.args[1], env)
+            if items is UNK or (fn is None and not (f.id == "filter" and astq_is_none(e.args[0]))):
+                return UNK
+            try:
+                out = []
+                for x in list(items):
+                    r = x if fn is None else self.apply(fn, [x], env)
+                    if r is UNK:
+                        return UNK
+                    if f.id == "map":
+                        out.append(r)
+                    elif r:
+                        out.append(x)
+                return out
+            except TypeError:
+                return UNK
         if isinstance(f, ast.Name) and f.id in _BUILTINS and f.id not in env:
             if self.lookup(f) is not UNK:  # shadowed by something we can see
                 return UNK
@@ -563,7 +701,8 @@ class Ev:
 
     # -- truthiness ---------------------------------------------------------
     def truth(self, e: ast.AST, env: dict[str, t.Any] | None = None) -> t.Any:
-        env = env or {}
+        if env is None:
+            env = {}
         if isinstance(e, ast.BoolOp):
             ts = [self.truth(x, env) for x in e.values]
             if isinstance(e.op, ast.And):
@@ -628,6 +767,32 @@ def _bind(target: ast.AST, value: t.Any, env: dict[str, t.Any]) -> bool:
     return False
 
 
+class _Pinned(dict):  # type: ignore[type-arg]
+    """{Def: value} with a version counter (memoised truths are per version)."""
+
+    version = 0
+
+    def __setitem__(self, k: t.Any, v: t.Any) -> None:
+        self.version += 1
+        super().__setitem__(k, v)
+
+    def update(self, *a: t.Any, **kw: t.Any) -> None:  # type: ignore[override]
+        self.version += 1
+        super().update(*a, **kw)
+
+    def __delitem__(self, k: t.Any) -> None:
+        self.version += 1
+        super().__delitem__(k)
+
+    def pop(self, *a: t.Any) -> t.Any:  # type: ignore[override]
+        self.version += 1
+        return super().pop(*a)
+
+    def clear(self) -> None:
+        self.version += 1
+        super().clear()
+
+
 class FuncEval:
     """values of local names of one function under a scenario.
 
@@ -646,7 +811,13 @@ class FuncEval:
         self.folder = folder
         self.fi = fi
         self.fn = fn if fn is not None else fi.node
-        self.cfg: CFG = cfg_of(fi) if fn is None else CFG(self.fn)
+        if fn is None:
+            self.cfg: CFG = cfg_of(fi)
+        else:
+            self.cfg = getattr(fn, "_c17_cfg", None) or CFG(fn)
+            fn._c17_cfg = self.cfg  # type: ignore[attr-defined]
+        self.free: t.Callable[[str], t.Any] | None = None  # values of the enclosing function's names (nested def)
+        self._cenv: dict[str, t.Any] | None = None  # environment of the concrete run in progress
         a = self.fn.args  # type: ignore[attr-defined]
         names = [x.arg for x in a.posonlyargs + a.args + a.kwonlyargs] + ([a.vararg.arg] if a.vararg else []) + ([a.kwarg.arg] if a.kwarg else [])
         rd = getattr(self.cfg, "_c17_rd", None)
@@ -658,15 +829,67 @@ class FuncEval:
         self.loop_values = loop_values or {}
         self.user_hook = call_hook
         self.multi = multi
-        self.pinned: dict[Def, t.Any] = {}
+        self.pinned: _Pinned = _Pinned()
         self.depth = 0
         self.inline_depth = inline_depth
         self.unknown_tests: list[Node] = []
+        self.assume: list[tuple[Node, bool]] = []  # test nodes whose outcome the scenario fixes
+        self.token: t.Callable[[], t.Any] | None = None  # part of the scenario a hook switches while evaluating (memo key)
+        self._truths: dict[t.Any, t.Any] = {}
+        self._frame: tuple[list[Node], frozenset[int]] | None = None
+        self._frame_no = 0
+        self._busy: set[tuple[int, str]] = set()
+        self._cut = 0
 
     # -- evaluation -----------------------------------------------------------
+    def _apply_fn(self, fn: _Fn, args: list[t.Any], ev: Ev, env: dict[str, t.Any]) -> t.Any:
+        """a nested def applied to known arguments: its body is followed on them; names of the enclosing function are
+        read where the call happens."""
+        names = _simple_params(fn.node.args)  # type: ignore[attr-defined]
+        if names is not None and fn.bound:
+            names = names[1:]
+        if names is None or len(names) != len(args) or self.inline_depth >= 3 or isinstance(fn.node, ast.AsyncFunctionDef):
+            return UNK
+        if any(isinstance(x, (ast.Yield, ast.YieldFrom)) for x in ast.walk(fn.node)):
+            return UNK
+        if fn.fi is not None:
+            bound = dict(zip(names, args))
+            if fn.bound and ("self" in env or "self" in self.params):
+                bound[fn.fi.params[0]] = env["self"] if "self" in env else self.params["self"]
+            sub = FuncEval(self.repo, self.folder, fn.fi, params=bound, call_hook=self.user_hook if fn.bound else None, inline_depth=self.inline_depth + 1)
+        else:
+            sub = FuncEval(self.repo, self.folder, self.fi, fn=fn.node, params=dict(zip(names, args)), call_hook=self.user_hook, inline_depth=self.inline_depth + 1)
+            sub.free = lambda name: env[name] if name in env else ev.lookup(ast.Name(id=name, ctx=ast.Load()))
+        try:
+            res = sub.concrete()
+            if res is not None:
+                return res[1] if res[0] == "return" else UNK
+            rets, raises = sub.outcomes()
+        except AnalysisError:
+            return UNK
+        vals = [v for _, v in rets]
+        if raises or not vals or not _known(*vals) or any(not (v is vals[0] or (type(v) is type(vals[0]) and v == vals[0])) for v in vals[1:]):
+            return UNK
+        return vals[0]
+
+    def _func_ref(self, e: ast.AST, ev: Ev, env: dict[str, t.Any]) -> t.Any:
+        """`helper` (function of the analysed module, not shadowed) or `self.method` (no override anywhere) as a value."""
+        if isinstance(e, ast.Name):
+            if ev.node is not None and self.rd.reaching(ev.node, e.id):
+                return UNK
+            h = self.fi.module.functions.get(e.id)
+            return _Fn(h.node, h) if h is not None and h is not self.fi else UNK
+        if isinstance(e, ast.Attribute) and isinstance(e.value, ast.Name) and e.value.id == "self" and self.fi.cls is not None and self.fi.params[:1] == ["self"] and self.fn is self.fi.node:
+            h = sole_method(self.repo, self.fi.cls, e.attr)
+            if h is not None and h.params and not ({"staticmethod", "classmethod", "property"} & set(h.decorators)):
+                return _Fn(h.node, h, True)
+        return UNK
+
     def ev_at(self, node: Node) -> Ev:
         ev = Ev(lambda nm: self.lookup_at(node, nm), self._hook)
         ev.node = node
+        ev.apply_fn = self._apply_fn
+        ev.func_ref = self._func_ref
         if self.pinned:
             ev.named = self._pinned_walrus
         return ev
@@ -678,6 +901,10 @@ class FuncEval:
         return NotImplemented
 
     def truth_at(self, node: Node) -> t.Any:
+        for m, tr in self.assume:
+            if m is node or (ast.dump(m.ast) == ast.dump(node.ast) and all(  # type: ignore[arg-type]
+                    self.rd.reaching(m, x.id) == self.rd.reaching(node, x.id) and self.rd.reaching(m, x.id) for x in ast.walk(m.ast) if isinstance(x, ast.Name))):  # type: ignore[arg-type]
+                return tr  # the scenario fixes this condition (same expression over the same bindings)
         return self.ev_at(node).truth(node.ast)  # type: ignore[arg-type]
 
     def lookup_at(self, node: Node, nm: ast.Name) -> t.Any:
@@ -691,6 +918,10 @@ class FuncEval:
             r = self.multi(nm.id, defs, self)
             if r is not NotImplemented:
                 return r
+        if len(defs) > 1:
+            # a name bound on several branches (a flag computed by if/else, a result variable, a default that a branch
+            # overrides): only the bindings that are live on a path the scenario permits count
+            defs = self.live_defs(node, nm.id, defs)
         vals = [self.def_value(d) for d in defs]
         v0 = vals[0]
         if v0 is UNK:
@@ -700,7 +931,81 @@ class FuncEval:
                 return UNK
         return v0
 
+    # -- path sensitivity ----------------------------------------------------------
+    def _scen_key(self) -> t.Any:
+        tok = self.token() if self.token is not None else None
+        return (tok, self.pinned.version, self._frame_no)
+
+    def test_truth(self, n: Node) -> t.Any:
+        """truth value of test node n under the scenario (memoised per scenario state; a value computed while an
+        enclosing query was cut short by the re-entrancy guard is not kept)."""
+        key = (self._scen_key(), n.id)
+        if key in self._truths:
+            return self._truths[key]
+        before = self._cut
+        tr = self.truth_at(n)
+        if self._cut == before:
+            self._truths[key] = tr
+        return tr
+
+    def live_defs(self, node: Node, name: str, defs: t.Iterable[Def]) -> list[Def]:
+        """the definitions of ``name`` that are live on arrival at ``node`` along some entry path whose branch edges the
+        scenario permits (a test the scenario decides keeps only its taken edge; an undecided test keeps both): the
+        reaching definitions of the scenario's sub-graph.  Over-approximates the feasible paths, so the set is a
+        superset of what a run of the scenario could see.  All of ``defs`` when ``node`` itself is not reachable that
+        way, or when the query re-enters itself (a test on the way needs the very value asked for)."""
+        defs = list(defs)
+        key = (node.id, name)
+        if key in self._busy or len(self._busy) > 12:
+            self._cut += 1
+            return defs
+        self._busy.add(key)
+        try:
+            stack: list[tuple[Node, Def | None]] = []
+            blocked: frozenset[int] = frozenset()
+            if self._frame is None:
+                stack.append((self.cfg.entry, next((d for d in self.rd.param_defs if d.name == name), None)))
+            else:
+                # the scenario's paths start at the nodes the last exploration started from (whatever binding was live
+                # there) and end at its stop / avoid nodes
+                starts, blocked = self._frame
+                for s0 in starts:
+                    ds = self.rd.reaching(s0, name) if s0 is not self.cfg.entry else [d for d in self.rd.param_defs if d.name == name]
+                    stack += [(s0, d) for d in ds] or [(s0, None)]
+            seen: set[tuple[int, int]] = set()
+            live: list[Def | None] = []
+            while stack:
+                n, cur = stack.pop()
+                k = (n.id, id(cur))
+                if k in seen:
+                    continue
+                seen.add(k)
+                if n is node and not any(cur is x for x in live):
+                    live.append(cur)
+                if n.id in blocked:
+                    continue
+                for d in self.rd.gen.get(n.id, []):
+                    if d.name == name:
+                        cur = d
+                keep: str | None = None
+                if n.kind == "test" and not isinstance(n.ast, ast.Constant):
+                    tr = self.test_truth(n)
+                    if tr is not UNK:
+                        keep = "T" if tr else "F"
+                for s, l in n.succs:
+                    if keep is not None and l in ("T", "F") and l != keep:
+                        continue
+                    stack.append((s, cur))
+            out = [d for d in defs if any(d is x for x in live)]
+            return out or defs
+        finally:
+            self._busy.discard(key)
+
     def _global(self, name: str) -> t.Any:
+        if self.free is not None:
+            r = self.free(name)
+            if r is not UNK:
+                return r
         m = self.fi.module
         if name in m.assigns or (name in m.imports and m.imports[name].startswith("werkzeug")):
             try:
@@ -726,6 +1031,13 @@ class FuncEval:
                     return self.ev_at(d.node).val(lit)  # a, b = x, y: only the element that is bound matters
                 v = self.ev_at(d.node).val(d.value)
                 return self._index(v, d)
+            if d.kind == "def" and isinstance(d.stmt, ast.FunctionDef):
+                return _Fn(d.stmt)
+            if d.kind == "aug" and isinstance(d.stmt, ast.AugAssign) and isinstance(d.stmt.target, ast.Name) and d.node is not None:
+                # x op= e: the binding that was live before, combined with e
+                tgt = d.stmt.target
+                load = ast.copy_location(ast.Name(id=tgt.id, ctx=ast.Load()), tgt)
+                return self.ev_at(d.node).val(ast.BinOp(left=load, op=d.stmt.op, right=d.stmt.value))
             if d.kind == "for" and d.stmt is not None:
                 v = self.loop_values.get(id(d.stmt), UNK)
                 if d.index is None or v is UNK:
@@ -778,11 +1090,14 @@ class FuncEval:
                 return NotImplemented  # a local binding shadows the module-level name
             helper = self.fi.module.functions.get(f.id)
             names = helper.params if helper is not None else []
-        elif isinstance(f, ast.Attribute) and isinstance(f.value, ast.Name) and f.value.id == "self" and "self" not in env and self.fi.cls is not None:
+        elif (isinstance(f, ast.Attribute) and isinstance(f.value, ast.Name) and f.value.id == "self" and self.fi.cls is not None and self.fn is self.fi.node
+              and self.fi.params[:1] == ["self"] and ("self" not in env or (self._cenv is not None and env["self"] is self._cenv.get("self")))):
             helper = sole_method(self.repo, self.fi.cls, f.attr)
             if helper is None or not helper.params or "staticmethod" in helper.decorators or "classmethod" in helper.decorators:
                 return NotImplemented
             names = helper.params[1:]
+            if "self" in env or "self" in self.params:
+                bound[helper.params[0]] = env["self"] if "self" in env else self.params["self"]
         else:
             return NotImplemented
         if helper is None or helper is self.fi or len(call.args) != len(names):
@@ -820,6 +1135,8 @@ class FuncEval:
         seen: set[int] = set()
         self.edges: set[tuple[int, int]] = set()
         stack = list(starts)
+        self._frame = (list(stack), frozenset(stop_s | avoid_s))  # kept afterwards: values read next belong to these paths
+        self._frame_no += 1
         while stack:
             n = stack.pop()
             if n.id in seen:
@@ -842,6 +1159,8 @@ class FuncEval:
                     continue
                 if s.id in avoid_s:
                     continue
+                if definite and l == "exc" and not isinstance(n.ast, ast.Raise):
+                    continue  # nothing in the scenario forces this statement to raise
                 self.edges.add((n.id, s.id))
                 stack.append(s)
         return seen
@@ -861,6 +1180,7 @@ class FuncEval:
         a = self.fn.args  # type: ignore[attr-defined]
         for x in a.posonlyargs + a.args + a.kwonlyargs:
             env.setdefault(x.arg, UNK)
+        self._cenv = env
         iters: dict[int, list[t.Any]] = {}
         n, prev = cfg.entry, None
 
@@ -874,6 +1194,9 @@ class FuncEval:
                 return ("raise", None)
             ev = Ev(glob, self._hook)
             ev.node = n
+            ev.apply_fn = self._apply_fn
+            ev.func_ref = self._func_ref
+            ev.mutating = True
             nxt: Node | None = None
             normal = [(s_, l) for s_, l in n.succs if l != "exc"]
             if n.kind == "loop":
@@ -929,6 +1252,10 @@ class FuncEval:
                         obj[k] = v
                     except Exception:
                         return None
+                elif isinstance(st, (ast.Assign, ast.AnnAssign)) and all(
+                        isinstance(x, ast.Attribute) and isinstance(x.value, ast.Name) and x.value.id == "self" and self.fn.args.args and self.fn.args.args[0].arg == "self"  # type: ignore[attr-defined]
+                        for x in (st.targets if isinstance(st, ast.Assign) else [st.target])):
+                    pass  # an attribute of self is set: no local value changes (reading it back is unknown)
                 elif isinstance(st, (ast.Assign, ast.AnnAssign)):
                     if not self._bind_defs(n, ev, env):
                         return None
@@ -944,15 +1271,28 @@ class FuncEval:
                         obj = env[v.func.value.id]
                         arity = self._MUTATORS.get(v.func.attr)
                         args = [ev.val(x, env) for x in v.args]
-                        if isinstance(obj, (list, set, dict)) and arity == len(args) and not v.keywords and _known(*args) and hasattr(obj, v.func.attr):
+                        if isinstance(obj, list) and v.func.attr == "sort" and not v.args and all(k.arg in ("key", "reverse") for k in v.keywords):
+                            # list.sort is sorted() in place: same stable order
+                            shim = ast.Call(func=ast.Name(id="sorted", ctx=ast.Load()), args=[v.func.value], keywords=v.keywords)
+                            r = ev.val(shim, env) if "sorted" not in env else UNK
+                            if r is UNK:
+                                return None
+                            obj[:] = r
+                        elif isinstance(obj, (list, set, dict)) and arity == len(args) and not v.keywords and _known(*args) and hasattr(obj, v.func.attr):
                             try:
                                 getattr(obj, v.func.attr)(*args)
                             except Exception:
                                 return None
                         elif isinstance(obj, (str, tuple, int, float, bool, type(None))):
                             pass  # immutable receiver: the call has no effect on the environment
+                        elif v.func.value.id == "self":
+                            ev.val(v, env)  # a method of self: a hook may record / answer it; no local value changes
                         else:
                             return None  # unknown effect on a local object
+                    elif isinstance(v, ast.Call):
+                        ev.val(v, env)  # no local receiver: a hook may record / answer it; no local value changes
+                elif isinstance(st, ast.FunctionDef):
+                    env[st.name] = _Fn(st)
                 elif isinstance(st, (ast.Pass, ast.Break, ast.Continue, ast.Assert, ast.Global, ast.Nonlocal)):
                     pass
                 else:
@@ -1008,6 +1348,72 @@ class FuncEval:
         if falls_off:
             rets.append((self.cfg.exit, None))
         return rets, self.cfg.raise_exit.id in seen
+
+
+def _clone(n: t.Any) -> t.Any:
+    if isinstance(n, ast.AST):
+        new = type(n)()
+        for f in n._fields:
+            if hasattr(n, f):
+                setattr(new, f, _clone(getattr(n, f)))
+        for a in n._attributes:
+            if hasattr(n, a):
+                setattr(new, a, getattr(n, a))
+        return new
+    if isinstance(n, list):
+        return [_clone(x) for x in n]
+    return n
+
+
+def _split_ifexp(st: ast.stmt) -> ast.stmt:
+    """`x = A if T else B` / `return A if T else B` as an if statement with one plain statement per arm."""
+    v = getattr(st, "value", None)
+    if not (isinstance(st, (ast.Assign, ast.AnnAssign, ast.Return)) and isinstance(v, ast.IfExp)):
+        return st
+    arms = []
+    for arm in (v.body, v.orelse):
+        c = _clone(st)
+        c.value = arm
+        arms.append(_split_ifexp(ast.copy_location(c, arm)))
+    return ast.copy_location(ast.If(test=v.test, body=[arms[0]], orelse=[arms[1]]), st)
+
+
+def _desugar(body: list[ast.stmt]) -> list[ast.stmt]:
+    out = []
+    for st in body:
+        if isinstance(st, (ast.FunctionDef, ast.AsyncFunctionDef, ast.ClassDef)):
+            out.append(st)
+            continue
+        for f in ("body", "orelse", "finalbody"):
+            b = getattr(st, f, None)
+            if isinstance(b, list) and b and isinstance(b[0], ast.stmt):
+                setattr(st, f, _desugar(b))
+        for h in getattr(st, "handlers", []) or []:
+            h.body = _desugar(h.body)
+        out.append(_split_ifexp(st))
+    return out
+
+
+def normalised(fi: FuncInfo) -> FuncInfo:
+    """a FuncInfo for the same function whose body has statement-level conditional expressions written as if
+    statements (so the CFG, dominance and reaching definitions see their branches); the function itself when it has
+    none.  Line numbers are kept; cached on ``fi``."""
+    got = getattr(fi, "_c17_norm", None)
+    if got is not None:
+        return got
+    out = fi
+    stmts = [x for x in ast.walk(fi.node) if isinstance(x, (ast.Assign, ast.AnnAssign, ast.Return)) and isinstance(x.value, ast.IfExp)]
+    if stmts:
+        node = _clone(fi.node)
+        node.body = _desugar(node.body)
+        for par in ast.walk(node):
+            for ch in ast.iter_child_nodes(par):
+                ch._parent = par  # type: ignore[attr-defined]
+        node._parent = getattr(fi.node, "_parent", None)
+        out = FuncInfo(fi.module, node, fi.qualname, fi.cls)
+        out._c17_norm = out  # type: ignore[attr-defined]
+    fi._c17_norm = out  # type: ignore[attr-defined]
+    return out
 
 
 def sole_method(repo: Repo, cls: t.Any, name: str) -> FuncInfo | None:
